@@ -257,6 +257,13 @@ PROPS["C14"] = {
 }
 
 
+NOT_APPLICABLE = {
+    "C02": "reference-model equivalence needs the relational mutator x observer matrix over two symbolic worlds; designed but not built within reach of this engine's cost (DESIGN.md A.1); parts are decided under C07, C08, C09, C12, C13, C17, C19 and not claimed here",
+    "C04": "the post-state invariant step (I1-I8 asserted on the logical disk after every transaction at solver witnesses) is not built; the invariant is only assumed on pre-states (DESIGN.md A.1); fragments are decided under C08, C10, C12, C15, C19",
+    "C05": "needs C04's post-state witnesses and a multi-transaction DoShrink progress harness; not built (DESIGN.md A.1); the return of allocations by failed requests is decided under C09",
+}
+
+
 def is_monitor_label(label):
     return label.startswith("mon:")
 
